@@ -78,6 +78,63 @@ theorem c12_single_writer {s : Conc.St} (r : Conc.Reach (guardOf Gen.mapArms) s)
     (h₁ : Conc.Ev.write t₁ l₁ ∈ s.trace) (h₂ : Conc.Ev.write t₂ l₂ ∈ s.trace) : t₁ = t₂ :=
   Conc.single_writer c12_wellguarded (Conc.inv_reach r) t₁ t₂ l₁ l₂ hv h₁ h₂
 
+/-- the table an arm builds its map from (arms out of range build nothing) -/
+def tableOf (arms : List Gen.MapArm) (l : Nat) : Option Nat := (arms[l]?).map (·.table)
+
+theorem guardOf_cell_table (arms : List Gen.MapArm) (wg : wellGuarded arms = true) (hs : smallIds arms = true) (l₁ l₂ : Nat)
+    (h : (guardOf arms l₁).cell = (guardOf arms l₂).cell) :
+    (guardOf arms l₁).wvar = (guardOf arms l₂).rvar ∧ tableOf arms l₁ = tableOf arms l₂ := by
+  have hsm : ∀ a ∈ arms, a.cell < 1000000 ∧ a.wvar < 1000000 ∧ a.rvar < 1000000 := by
+    simpa [smallIds] using hs
+  unfold guardOf tableOf at *
+  cases h₁ : arms[l₁]? with
+  | none =>
+    cases h₂ : arms[l₂]? with
+    | none =>
+      simp only [h₁, h₂] at h ⊢
+      have : l₁ = l₂ := by have h' : 1000000 + l₁ = 1000000 + l₂ := h; omega
+      subst this; simp
+    | some b =>
+      simp only [h₁, h₂] at h
+      have hb := (hsm b (List.mem_of_getElem? h₂)).1
+      have h' : b.cell = 1000000 + l₁ := h.symm
+      omega
+  | some a =>
+    cases h₂ : arms[l₂]? with
+    | none =>
+      simp only [h₁, h₂] at h
+      have ha := (hsm a (List.mem_of_getElem? h₁)).1
+      have h' : a.cell = 1000000 + l₂ := h
+      omega
+    | some b =>
+      simp only [h₁, h₂] at h ⊢
+      have ha := List.mem_of_getElem? h₁
+      have hb := List.mem_of_getElem? h₂
+      obtain ⟨hv, ht⟩ := wg_cell wg a b ha hb h
+      exact ⟨by rw [hv]; exact wg_rw wg b hb, by simp [ht]⟩
+
+/-- **C12 (equals sequential use)**: in every reachable state of every schedule, every read of a
+lookup map (a) is preceded, in happens-before order, by a write to that same variable made by an
+arm that builds the map from the *same table* as the reader's own arm, and (b) every write to that
+variable anywhere in the execution builds from that same table.  So the map a goroutine obtains
+from `mapping()` is the one it obtains when run alone (`c13_history_free`: `some table` of its own
+arm) — whatever the other goroutines do. -/
+theorem c12_sequential {s : Conc.St} (r : Conc.Reach (guardOf Gen.mapArms) s) (tr : Conc.Tid) (lr : Conc.Lang)
+    (hr : Conc.Ev.read tr lr ∈ s.trace) :
+    (∃ tw lw, Conc.Ev.write tw lw ∈ s.trace ∧ Conc.Ordered s.trace tw lw tr lr ∧
+        tableOf Gen.mapArms lw = tableOf Gen.mapArms lr) ∧
+    (∀ tw lw, Conc.Ev.write tw lw ∈ s.trace → (guardOf Gen.mapArms lw).wvar = (guardOf Gen.mapArms lr).rvar →
+        tableOf Gen.mapArms lw = tableOf Gen.mapArms lr) := by
+  have hsmall : smallIds Gen.mapArms = true := by decide
+  constructor
+  · obtain ⟨tw, lw, hc, hw⟩ := Conc.read_has_write r tr lr hr
+    obtain ⟨hv, ht⟩ := guardOf_cell_table Gen.mapArms c13_wellguarded hsmall lw lr hc
+    exact ⟨tw, lw, hw, c12_racefree r tw tr lw lr hv hw hr, ht⟩
+  · intro tw lw _ hv
+    have hc : (guardOf Gen.mapArms lw).cell = (guardOf Gen.mapArms lr).cell :=
+      c12_wellguarded.var_cell lw lr (by rw [hv, c12_wellguarded.rw_same lr])
+    exact (guardOf_cell_table Gen.mapArms c13_wellguarded hsmall lw lr hc).2
+
 /-- non-vacuity: a two-goroutine cold-start schedule on the same language reaches a state with a
 write by one goroutine and a read by the other -/
 example : ∃ s, Conc.Reach (guardOf Gen.mapArms) s ∧ Conc.Ev.write 0 2 ∈ s.trace ∧ Conc.Ev.read 1 2 ∈ s.trace := by
@@ -102,4 +159,5 @@ example :
 #print axioms c12_wellguarded
 #print axioms c12_racefree
 #print axioms c12_single_writer
+#print axioms c12_sequential
 end Bip39V
